@@ -71,6 +71,17 @@ def replay(spec):
             return {"reproduced": bool(bad), "observed": got, "expected": want}
         bad = not (got == -math.inf)
         return {"reproduced": bool(bad), "observed": got, "expected": "-inf (scipy log-density %r)" % want}
+    # an earlier interface over the same parameter names with other hyper-parameters must not matter (no shared state)
+    try:
+        warm = {}
+        for i, fam in enumerate(fams):
+            hw = [float(x) + 1.5 for x in prior[names[i]][1:] if not isinstance(x, str)]
+            if fam in ("uniform", "log-uniform"):
+                hw = [0.5, 50.0]
+            warm[names[i]] = [fam] + hw
+        PIDInterface(names, M, warm).check_prior({n: 0.75 for n in names})
+    except Exception:
+        pass
     pid = PIDInterface(names, M, prior)
     try:
         got = pid.check_prior(theta)
